@@ -1116,6 +1116,28 @@ with deser_enum (fuel : nat) (c : dcfg) (name : str) (variants : list (str * vsh
         let close (v : val) (x : src) :=
           if map_mode then match expect_map_end x with inl x' => DOk (VVariant vname v) x' | inr e => DErr e end
           else DOk (VVariant vname v) x in
+        if negb map_mode then
+          (* bare scalar `Variant`: the payload is an absent (null) node, never the next sibling *)
+          let r := replay_new [null_scalar 0 vloc] in
+          match shape with
+          | VsUnit => DOk (VVariant vname VUnit) x
+          | VsNewtype t =>
+            match deser f c false t r with
+            | DOk v _ => DOk (VVariant vname v) x
+            | other => other
+            end
+          | VsTuple ts =>
+            match deser_seq f c (SchedList ts) r with
+            | DOk v _ => DOk (VVariant vname v) x
+            | other => other
+            end
+          | VsStruct fields =>
+            match deser_map f c (MStruct fields false) r with
+            | DOk v _ => DOk (VVariant vname v) x
+            | other => other
+            end
+          end
+        else
         match shape with
         | VsUnit =>
           if map_mode then
@@ -1167,21 +1189,28 @@ with deser_enum (fuel : nat) (c : dcfg) (name : str) (variants : list (str * vsh
       | None => DErr (Err E_SerdeVariantId vloc)
       | Some shape =>
         let r := replay_new buf in
+        (* fn expect_payload_consumed: the private buffer must be exhausted *)
+        let consumed (v : val) (r' : src) :=
+          match src_peek r' with
+          | NErr e => DErr e
+          | NNone _ => DOk (VVariant vname v) x_after
+          | NSome e _ => DErr (Err E_Unexpected (ev_loc e))
+          end in
         match shape with
         | VsUnit => DOk (VVariant vname VUnit) x_after
         | VsNewtype t =>
           match deser f c false t r with
-          | DOk v _ => DOk (VVariant vname v) x_after
+          | DOk v r' => consumed v r'
           | other => other
           end
         | VsTuple ts =>
           match deser_seq f c (SchedList ts) r with
-          | DOk v _ => DOk (VVariant vname v) x_after
+          | DOk v r' => consumed v r'
           | other => other
           end
         | VsStruct fields =>
           match deser_map f c (MStruct fields false) r with
-          | DOk v _ => DOk (VVariant vname v) x_after
+          | DOk v r' => consumed v r'
           | other => other
           end
         end
